@@ -193,7 +193,7 @@ func checkC17(run *mon.Run, rng *mon.Rand, thorough bool) {
 	run.Rule = "differential cases against an independent Keccak/ADR-028 implementation (itself pinned to python hashlib vectors); a case is non-trivial and distinct by (function, input-class, layout) where input classes are lattice/boundary classes of the arguments Plus: 16 goroutines calling all format functions concurrently on their own inputs (thorough: under the race detector); handler-level claims with lower- and upper-case receivers."
 	run.Assumptions = []string{"python3 hashlib SHA3-256/SHA-256 (used once to pin vectors) is correct", "hash collisions are not searched for"}
 	for _, c := range []string{"vectors.ref", "vectors.chain", "diff.leaf", "diff.node", "diff.node.commutative", "diff.root", "diff.output_root", "diff.l2denom", "diff.bridge_addr",
-		"purity.args_unchanged", "purity.layout_independent", "handler.layout_independent", "handler.leaf_commits_strings_verbatim"} {
+		"purity.args_unchanged", "purity.layout_independent", "handler.layout_independent", "handler.leaf_commits_strings_verbatim", "handler.root_is_fold_over_all_elements"} {
 		run.Declare(c, 1)
 	}
 
@@ -622,6 +622,20 @@ func c17Handler(run *mon.Run, rng *mon.Rand, thorough bool) {
 				}
 				tr := map[string]interface{}{"tree_size": nLeaves, "leaf": i, "layout": layoutNames[lay], "result": res.ErrString()}
 				run.Check("purity.args_unchanged", intact, "c17.purity.handler_writes_proof", tr, "MsgFinalizeTokenWithdrawal handler modified the caller's proof bytes (layout %s)", layoutNames[lay])
+			}
+			// the handler's verdict follows the documented fold over all supplied elements: a valid path followed by
+			// further elements folds to another root and must be refused
+			if len(base.WithdrawalProofs) > 0 || true {
+				for _, extra := range [][]byte{rand32(rng), make([]byte, 32), base.StorageRoot} {
+					m := *base
+					m.WithdrawalProofs = append(append([][]byte{}, base.WithdrawalProofs...), append([]byte(nil), extra...))
+					leaf := ref.Leaf(m.BridgeId, m.Sequence, m.From, m.To, m.Amount.Denom, m.Amount.Amount.Uint64())
+					want := ref.Root(leaf, m.WithdrawalProofs)
+					res := l1.Branch().Deliver(&m)
+					run.Evaluations++
+					run.Check("handler.root_is_fold_over_all_elements", (res.Class == sim.OK) == bytes.Equal(want[:], m.StorageRoot), "c17.handler.trailing_elements_ignored",
+						map[string]interface{}{"tree_size": nLeaves, "leaf": i, "proof_elements": len(m.WithdrawalProofs)}, "a claim whose proof carries one element more than the path (documented fold gives another root) was answered %s", res.Class)
+				}
 			}
 			spelling := "lower-case"
 			if w.To != user.String() {
